@@ -347,6 +347,57 @@ example :
     requestApplied (fun _ => 0) (fun _ => 0) ([ReqOp.update full, ReqOp.update empty].foldl ReqState.step ReqState.init) false ⟨1730068200, 0⟩ = (2, 0) := by
   decide
 
+/-! ## Values do not share state -/
+
+/-- Values do not share state: whatever operation runs — in particular a decode INTO
+slot `i` (the target pre-filled with that value) — every other value created before
+is what it was.  (Trivial in the model, where values are immutable; the aliasing
+blocks of the tie make it bite on the pointers of the Go code.) -/
+theorem C18_decode_no_aliasing (slots : List Weekly) (op : AliasOp) (j : Nat) (hj : j < slots.length)
+    (hne : some j ≠ op.target) : (aliasStep slots op)[j]? = slots[j]? := by
+  cases op with
+  | newEmpty => simp [aliasStep, List.getElem?_append_left hj]
+  | newFull => simp [aliasStep, List.getElem?_append_left hj]
+  | clone k =>
+    simp only [aliasStep]
+    split
+    · simp [List.getElem?_append_left hj]
+    · rfl
+  | decodeInto i res =>
+    cases res with
+    | error e => rfl
+    | ok w =>
+      simp only [aliasStep]
+      have : i ≠ j := by
+        intro h; subst h; exact hne rfl
+      exact List.getElem?_set_ne this
+
+/-- `EmptyWeekly()` is a constant of the model and contains no instant, in any zone,
+whatever was decoded before. -/
+theorem C18_empty_is_empty (off : Int → Int) (t : Instant) : contains off emptyWeekly t = false := by
+  have hz : ∀ k, emptyWeekly.days.get k = DayRange.zero := by
+    intro k; unfold emptyWeekly Week.const Week.get; split <;> rfl
+  exact C18_empty_covers_none off emptyWeekly _ t rfl (by rw [hz]; decide)
+
+/-- The model passes the aliasing monitor after every operation of every history. -/
+theorem C18_alias_meets_spec (slots : List Weekly) (op : AliasOp) (n : Nat) :
+    specAlias slots op.target ⟨emptyWeekly.days, List.replicate n false, aliasStep slots op⟩ = none := by
+  unfold specAlias
+  have h1 : (emptyWeekly.days != Week.const DayRange.zero) = false := by decide
+  have h2 : (List.replicate n false).any id = false := by
+    induction n with
+    | zero => rfl
+    | succ k ih => simp [List.replicate_succ, ih]
+  have h3 : (List.range slots.length).any
+      (fun j => some j != op.target && (aliasStep slots op)[j]? != slots[j]?) = false := by
+    rw [List.any_eq_false]
+    intro j hj
+    have hj' : j < slots.length := List.mem_range.mp hj
+    by_cases ht : some j = op.target
+    · simp [ht]
+    · simp [C18_decode_no_aliasing slots op j hj' ht]
+  simp only [h1, h2, h3, Bool.or_self, Bool.false_eq_true, if_false]
+
 /-! ## The model satisfies the spec monitors, for all inputs -/
 
 theorem C18_model_meets_spec :
